@@ -54,6 +54,10 @@ isal_self_tests(void)
 
         ret |= _sha_self_tests();
 
+        /* The stored status must be 0 (done, OK) or 1 (done, failed): the tests above
+         * report failure with different non-zero values (1, -1) */
+        ret = (ret != 0);
+
         asm_set_self_tests_status(ret);
 
         if (ret == 0)
